@@ -624,7 +624,8 @@ func clip(s string) string {
 	return s
 }
 
-// ---------------------------------------------------------------- directed witnesses (the excluded shapes)
+// ---------------------------------------------------------------- directed witnesses: the excluded shape (include
+// base-name collision, a known finding) and two regression items (repaired defects that must now hold)
 
 func emptyFile(path string, ns string) *DFile {
 	f := &DFile{Path: path}
@@ -843,7 +844,7 @@ func run(repo, dir string, seed uint64, tier string) error {
 	out := vl.NewOut(dir)
 	defer out.Close()
 	r := vl.NewRng(seed)
-	// 1. the excluded shapes, replayed on the implementation
+	// 1. the excluded shape and the regression items, replayed on the implementation
 	failingWitness := map[string]bool{}
 	for _, w := range witnesses() {
 		fs, err := evaluate(w.doc, out, r)
